@@ -666,7 +666,7 @@ theorem corevm_abortTail_is_op (hν : Function.Injective ν) (hφ : Function.Inj
   | ok u1 vm1 =>
   rw [hloop] at h
   simp only at h
-  obtain ⟨t1, hs1, habs1, hw1, hix1, hfx1⟩ := release_loop ν φ hν x.actionUids vm vm1 hw hi hg hloop
+  obtain ⟨t1, hs1, habs1, hw1, hix1, hfx1, hnm1⟩ := release_loop ν φ hν x.actionUids vm vm1 hw hi hg hloop
   have habs1' : absVM ν φ vm1 = cs t1 := by
     have := congrArg cs habs1
     rw [cs_absVM] at this
